@@ -246,13 +246,23 @@ def run(ctx):
         # body of the function that uses it (the first evaluation in a fresh process meets it unloaded, the second one loaded), and a
         # callable object of the module that is not a plain function (a functools.partial of an accepted function: its repr holds an
         # address)
-        for ri, (files, entry_mod) in enumerate([
+        for ri, spec in enumerate([
                 ({"__init__.py": "", "settings.py": "THRESHOLD = 3\n",
                   "main.py": "import dds\n\ndef stage():\n    import %(pk)s.settings\n    return %(pk)s.settings.THRESHOLD * 2\n\n"
                              "def f0():\n    return dds.keep('/c03/lazy', stage)\n"}, "main"),
+                # ... nor what was analysed before in the process: a function that binds a module to a name inside its body
+                # (import pkg.settings as settings) next to one that binds the same name differently (from pkg import settings),
+                # analysed after it from the second evaluation on
+                ({"__init__.py": "", "settings.py": "THRESHOLD = 3\nOTHER = 5\n",
+                  "main.py": "import dds\nimport %(pk)s.settings\n\ndef pb():\n    from %(pk)s import settings\n    return settings.THRESHOLD\n\n"
+                             "def pa():\n    import %(pk)s.settings as settings\n    return settings.OTHER\n\n"
+                             "def fa():\n    return dds.keep('/c03/a', pa)\n\n"
+                             "def f0():\n    return dds.keep('/c03/b', pb)\n"}, "main", "fa"),
                 ({"__init__.py": "",
                   "main.py": "import dds\nimport functools\n\ndef scale(x, factor=1.0):\n    return x * factor\n\nhalve = functools.partial(scale, factor=0.5)\n\n"
                              "def halved():\n    return halve(10)\n\ndef f0():\n    return dds.keep('/c03/half', halved)\n"}, "main")]):
+            files, entry_mod = spec[0], spec[1]
+            between = spec[2] if len(spec) > 2 else None     # another entry of the module evaluated before the second evaluation
             pk = "c3r%d_%d" % (ri, os.getpid())
             for d in (base, moved):
                 os.makedirs(os.path.join(d, pk), exist_ok=True)
@@ -268,6 +278,8 @@ def run(ctx):
                     wk.call(cmd="store", kind=v.get("store", "memory"), internal_dir=sd + "/i", data_dir=sd + "/d")
                     if not nth:
                         wk.call(cmd="world", dir=d, module=pk + "." + entry_mod, extmod="c3e_fixed", accept=pk)
+                    elif between:
+                        wk.call(cmd="run", entry={"kind": "eval", "fun": between})
                     r = wk.call(cmd="run", entry=entry)
                     res.evaluations += 1
                     rmaps[v["name"] + nth] = r["paths"] if r["error"] is None else {"REFUSED": [r["error"].get("kind"), r["error"].get("code") or r["error"].get("cls")]}
